@@ -317,7 +317,10 @@ func (tsc *TransportServerConfiguration) IsEqual(resource Resource) bool {
 		return false
 	}
 
-	return compareObjectMetas(tsc.GetObjectMeta(), resource.GetObjectMeta()) && tsc.ListenerPort == tsConfig.ListenerPort
+	return compareObjectMetas(tsc.GetObjectMeta(), resource.GetObjectMeta()) &&
+		tsc.ListenerPort == tsConfig.ListenerPort &&
+		tsc.IPv4 == tsConfig.IPv4 &&
+		tsc.IPv6 == tsConfig.IPv6
 }
 
 func compareObjectMetas(meta1 *metav1.ObjectMeta, meta2 *metav1.ObjectMeta) bool {
